@@ -14,6 +14,7 @@ func init() {
 		explain: "Decides the guard clauses behind 'GOGARBLE selects exactly the obfuscated packages': " +
 			"(R14.1) listedPackage.ToObfuscate is written in one place, appendListedPackages; " +
 			"(R14.2) that write is reachable only on the false edges of the runtime-and-dependencies, runtime/cgo, fips140 and empty-package tests; " +
+			"(R14.6) the selection and the no-match exemption both use module.MatchPrefixPatterns on GOGARBLE; " +
 			"(R14.3) every successful return of the top-level listing is dominated by the 'matches nothing' test, whose failing edge returns an error; " +
 			"(R14.4) every site that derives an obfuscated name for a package (all hashWithPackage and hashWithStruct call sites), the literal obfuscator and the position rewriting run only under the true edge of ToObfuscate of that same package value (same SSA value or same access path; through closures at their creation, through helpers at every call site), or are in the reviewed list of names that are hashed regardless; " +
 			"(R14.5) GOGARBLE influences garble's build hash. " +
@@ -122,6 +123,49 @@ func checkC14(c *Ctx) {
 			c.Check(got[e.key], "R14.2", "exclusion of "+e.what, w.Pos(st.Pos()), "the store is only reachable on the false edge of this test",
 				"ToObfuscate can be set for "+e.what+": garble does not support obfuscating it")
 		}
+	}
+
+	// R14.6: the pattern matcher. The store is enabled by a chain of alternatives (test main,
+	// command-line-arguments, plugin/unnamed, GOGARBLE match); the GOGARBLE alternative and the
+	// "runtime" exemption of the no-match error must use the go command's own matcher,
+	// golang.org/x/mod/module.MatchPrefixPatterns, on sharedCache.GOGARBLE: a private
+	// re-implementation can disagree with it for some pattern list (and with the other site).
+	c.Rule("R14.6", "both GOGARBLE tests (selection and no-match exemption) use module.MatchPrefixPatterns on sharedCache.GOGARBLE", 2)
+	{
+		matcher := "golang.org/x/mod/module.MatchPrefixPatterns"
+		nSel, nRuntime := 0, 0
+		for _, cs := range w.CallsTo(matcher) {
+			if cs.Fn != alp {
+				continue
+			}
+			if !w.BackSlice(cs.Args()[0], sliceOpt{}).Fields["sharedCacheType.GOGARBLE"] {
+				continue
+			}
+			if k, ok := constString(cs.Args()[1]); ok && k == "runtime" {
+				nRuntime++
+			} else {
+				nSel++
+			}
+		}
+		// the selection call must be one of the conditions that lead to the store
+		reaches := false
+		for _, st := range stores {
+			for _, b := range alp.Blocks {
+				iff := ifOf(b)
+				if iff == nil {
+					continue
+				}
+				if call, ok := iff.Cond.(*ssa.Call); ok && calleeName(call) == matcher && (b.Succs[0] == st.Block() || reachableAvoiding(b.Succs[0], nil)[st.Block()]) {
+					if _, isConst := constString(call.Call.Args[1]); !isConst {
+						reaches = true
+					}
+				}
+			}
+		}
+		c.Check(nSel >= 1 && reaches, "R14.6", "selection by GOGARBLE", w.Pos(alp.Pos()), "module.MatchPrefixPatterns(sharedCache.GOGARBLE, <package path>) leads to the store",
+			"the per-package decision no longer calls module.MatchPrefixPatterns on GOGARBLE: a private matcher may treat some pattern lists differently (a comma list whose first pattern is deeper than the package path, say), leaving matched packages plain without any error")
+		c.Check(nRuntime >= 1, "R14.6", "no-match exemption for the runtime", w.Pos(alp.Pos()), "module.MatchPrefixPatterns(sharedCache.GOGARBLE, \"runtime\")",
+			"the exemption of the no-match error no longer uses module.MatchPrefixPatterns")
 	}
 
 	// R14.3
